@@ -224,7 +224,14 @@ def r4_r5(F, R, decl):
                 ids = IDENT.get(dim)
                 k0 = "%s:%s:%s" % (key, fn, dim)
                 if not ids:
-                    R.bad("C16-R4", k0 + ":unknown-event", fsite, "event dimension `%s` has no identifying field in the rule table (new event: extend IDENT after reading)" % dim)
+                    # an event dimension added after the table was written: its identifying field is the one every other field of the event implies
+                    pres = {f: overall_presence(items, f) for f in fields}
+                    cand = [f0 for f0 in sorted(fields) if all(P.implies(pres[f], pres[f0]) for f in fields) and P.is_constant(pres[f0]) is None]
+                    if cand:
+                        R.ok("C16-R4", k0 + ":predicate", fsite, "new event `%s`: every field is present only when `%s` is (%s), which is not constant" % (dim, cand[0], P.fshow(pres[cand[0]])))
+                    else:
+                        R.bad("C16-R4", k0 + ":unknown-event", fsite, "event dimension `%s`: no field whose presence (non-constant) is implied by all the others - the fields of one event "
+                              "do not appear together (%s)" % (dim, {f: P.fshow(x) for f, x in pres.items()}))
                     continue
                 present_ids = [f for f in ids if f in fields]
                 if not present_ids:
@@ -261,7 +268,10 @@ def r4_r5(F, R, decl):
                 pf = overall_presence(items, f)
                 kf = "%s:%s:%s" % (key, fn, f)
                 bad_atoms = [a for a in P.atoms_of(pf) if not option_atom(F, items[0][0], a)]
-                if bad_atoms:
+                cached = cached_option_ok(F, items[0][0], key, f) if bad_atoms else None
+                if cached is not None and cached[0]:
+                    R.ok("C16-R5", kf, fsite, "present as in the per-draw cache it is " + cached[1])
+                elif bad_atoms:
                     R.bad("C16-R5", kf, fsite, "non-event statistic `%s` is present iff %s, which depends on %s (not an option switch): present on some draws and absent on others" % (
                         f, P.fshow(pf), bad_atoms))
                 else:
@@ -288,7 +298,74 @@ def option_atom(F, b, a):
     if not adt or len(parts) < 2:
         return False
     ws = [w for w in K.field_writers(F, adt, parts[1]) if w[4] != "agg"]
+    # a consuming builder (`fn with_x(mut self, x) -> Self { self.x = x; self }`) configures the object before it is used: constructor-like
+    ws = [w for w in ws if not _consuming_builder(w[0])]
+    # a store into an object the function itself has just built (`let mut chain = Chain::new(..); chain.flag = v;`, also an inlined builder)
+    ws = [w for w in ws if not ("pl" in w[2] and not w[0].is_arg(K.root_local(w[0], {"k": "copy", "pl": {"l": w[2]["pl"]["l"], "p": []}}) or -1)
+                                and not w[0].is_arg(w[2]["pl"]["l"]))]
     return not ws
+
+
+def _consuming_builder(wb):
+    if wb.kind == "closure" or wb.arg_count < 1:
+        return False
+    ty = wb.local_ty(1) or ""
+    out = str(wb.r.get("output") or (wb.locals[0].get("ty") if wb.locals else ""))
+    return not ty.startswith("&") and strip_generics(ty).split("::")[-1] == strip_generics(out).split("::")[-1] and ty != ""
+
+
+def cached_option_ok(F, b, stat_adt, f):
+    """A non-event statistic copied from a per-draw cache object held by the chain (`self.last_x.as_ref().expect(..).f.clone()`): its presence is
+    decided where the cache object is built. -> (ok?, text) or None if the value does not come from such a cache."""
+    for bi, blk in enumerate(b.blocks):
+        for st in blk["stmts"]:
+            if st["k"] == "assign" and st["rv"]["k"] == "agg" and st["rv"].get("ak") == "adt" and strip_generics(st["rv"]["adt"]) == strip_generics(stat_adt) \
+                    and f in (st["rv"].get("fields") or []):
+                v = b.value(st["rv"]["ops"][st["rv"]["fields"].index(f)])
+                chain = []
+                x = v
+                while True:
+                    if x[0] in ("ref", "deref", "cast", "downcast"):
+                        x = x[1]
+                    elif x[0] == "field":
+                        chain.append(str(x[2]))
+                        x = x[1]
+                    elif x[0] == "call" and x[2]:
+                        x = x[2][0]
+                    else:
+                        break
+                chain = [c for c in reversed(chain) if not c.isdigit()]
+                if x[0] != "arg" or x[1] != 1 or len(chain) < 2:
+                    return None
+                self_adt = b.parent.get("self_adt")
+                sa = F.adts.get(self_adt) or {}
+                fty = next((q["ty"] for q in (sa.get("variants") or [{}])[0].get("fields", []) if q["name"] == chain[0]), "")
+                cache_adt = next((p_ for p_ in F.adts if p_ in fty or strip_generics(p_) in strip_generics(fty)), None)
+                if cache_adt is None:
+                    return None
+                fld = chain[-1]
+                texts = []
+                okk = True
+                found = False
+                for wb in sorted(F.bodies.values(), key=lambda z: z.path):
+                    if not wb.hir or K.is_std_derive(wb):
+                        continue
+                    if not any(zz.get("k") == "Struct" and strip_generics((zz.get("res") or {}).get("def", "")) == strip_generics(cache_adt) for zz in hir_walk(wb.hir["value"])):
+                        continue
+                    it = P.Interp(wb).run()
+                    for c in it.constructions:
+                        if strip_generics(c[1]) != strip_generics(cache_adt) or fld not in c[2]:
+                            continue
+                        found = True
+                        pf = it.field_presence(c, fld)
+                        bad = [a for a in P.atoms_of(pf) if not option_atom(F, wb, a)]
+                        texts.append("%s: %s" % (wb.fn_name, P.fshow(pf)))
+                        if bad:
+                            okk = False
+                if not found:
+                    return None
+                return okk, "copied from %s.%s, which is built with presence %s" % (strip_generics(cache_adt).split("::")[-1], fld, "; ".join(texts))
+    return None
 
 
 def r6(F, R):
